@@ -4,6 +4,8 @@
 // Concretisation table (trusted):
 //   variable "a","b","c"  -> a slot holding std::optional<P<T>>, P = unique_ptr | shared_ptr (cfg "u"),
 //                            T = Base | Derived (cfg "b"); "in scope" = the optional is engaged
+//   cfg "mk" unique|shared -> every object is a node owning a member variable "m<o>" (a slot of the same
+//                            family, P<Derived>, created empty with the object, destroyed with it)
 //   object o              -> `new Derived(o)`; identity = its address (class-specific operator delete
 //                            keeps freed blocks in a graveyard until the behaviour ends -- poisoned under
 //                            ASan -- so an address never names two objects and a dangling pointer is
@@ -45,6 +47,7 @@ struct ObjRec
   size_t size;
   bool live;
   int dtors;
+  void *member = nullptr;   // the node's member slot (valid while the object is alive)
 };
 
 struct Heap
@@ -125,10 +128,19 @@ struct Base
       ::free(p);
   }
 };
+// A node: it may own a member pointer variable ("m<id>" of the machine: a Slot of the world's family,
+// created empty with the object and destroyed with it, BEFORE the instance counter sees the node die).
 struct Derived : Base
 {
   int extra;
+  void *member               = nullptr;
+  void (*member_dtor)(void *) = nullptr;
   explicit Derived(int i) : Base(i), extra(i * 1000) {}
+  ~Derived() override
+  {
+    if (member)
+      member_dtor(member);
+  }
 };
 
 struct NostdFam
@@ -238,17 +250,48 @@ struct World
   std::map<int, Derived *> raw;   // objects held by the caller after release()
   Rng rng{1};
 
-  int var_index(const std::string &v)
+  int mkind = 0;   // 0 no members, 1 unique_ptr<Derived> next, 2 shared_ptr<Derived> next
+  int nslots() const { return nvar + (mkind ? nobj : 0); }
+
+  // i-th variable of the machine (roots, then the members m1..): nullptr when it does not exist
+  // (member of an object that is not alive)
+  Slot<Fam> *slot_at(int i)
   {
-    if (v.size() != 1 || v[0] < 'a' || v[0] >= 'a' + nvar)
+    if (i < nvar)
+      return &slot[i];
+    int o = i - nvar + 1;
+    for (auto &r : heap.objs)
+      if (r.id == o)
+        return r.live ? static_cast<Slot<Fam> *>(r.member) : nullptr;
+    return nullptr;
+  }
+  Slot<Fam> &slot_named(const std::string &v)
+  {
+    Slot<Fam> *s = nullptr;
+    if (v.size() == 1 && v[0] >= 'a' && v[0] < 'a' + nvar)
+      s = &slot[v[0] - 'a'];
+    else if (v.size() == 2 && v[0] == 'm' && mkind && v[1] >= '1' && v[1] < '1' + nobj)
+      s = slot_at(nvar + (v[1] - '1'));
+    else
       throw Fail{"bad variable name '" + v + "'"};
-    return v[0] - 'a';
+    if (!s)
+      throw Fail{"member variable '" + v + "' of an object that is not alive"};
+    return *s;
   }
 
   Derived *make(int id)
   {
     Derived *d = new Derived(id);
     heap.objs.push_back({id, static_cast<void *>(static_cast<Base *>(d)), heap.pending_size, true, 0});
+    if (mkind)
+    {
+      Slot<Fam> *m = new Slot<Fam>();
+      m->which     = mkind == 1 ? 0 : 2;
+      with(*m, [&](auto &o) { o.emplace(); });   // Node::next starts empty
+      d->member      = m;
+      d->member_dtor = [](void *p) { delete static_cast<Slot<Fam> *>(p); };
+      heap.objs.back().member = m;
+    }
     return d;
   }
 
@@ -290,7 +333,7 @@ struct World
       delete p;
       return;
     }
-    Slot<Fam> &v = slot[var_index(vn)];
+    Slot<Fam> &v = slot_named(vn);
     if (op == "CtorDefault")
     {
       with(v, [&](auto &o) {
@@ -336,7 +379,7 @@ struct World
     }
     else if (op == "CtorCopy" || op == "CtorMove" || op == "AssignCopy" || op == "AssignMove" || op == "Swap")
     {
-      Slot<Fam> &w = slot[var_index(wn)];
+      Slot<Fam> &w = slot_named(wn);
       bool self    = &v == &w;
       with(v, [&](auto &ov) {
         with(w, [&](auto &ow) {
@@ -460,14 +503,15 @@ struct World
   {
     json o;
     json get = json::array();
-    for (int i = 0; i < nvar; ++i)
+    for (int i = 0; i < nslots(); ++i)
     {
-      Slot<Fam> &s = slot[i];
-      if (!s.in_scope())
+      Slot<Fam> *sp = slot_at(i);
+      if (!sp || !sp->in_scope())
       {
         get.push_back(9);
         continue;
       }
+      Slot<Fam> &s = *sp;
       int code = 0;
       with(s, [&](auto &opt) {
         auto &p        = *opt;
@@ -501,17 +545,19 @@ struct World
     o["ret"]       = op == "Release" ? json(last_ret) : st["exp"]["ret"];
     json same      = json::array();
     static const int pr[3][2] = {{0, 1}, {0, 2}, {1, 2}};
-    int npairs                = nvar >= 3 ? 3 : (nvar == 2 ? 1 : 0);
+    int npairs                = nslots() >= 3 ? 3 : (nslots() == 2 ? 1 : 0);
     for (int k = 0; k < npairs; ++k)
     {
-      Slot<Fam> &x = slot[pr[k][0]];
-      Slot<Fam> &y = slot[pr[k][1]];
-      if (!x.in_scope() || !y.in_scope() || x.unique() != y.unique())
+      Slot<Fam> *xp = slot_at(pr[k][0]);
+      Slot<Fam> *yp = slot_at(pr[k][1]);
+      if (!xp || !yp || !xp->in_scope() || !yp->in_scope() || xp->unique() != yp->unique())
       {
         same.push_back("-");
         continue;
       }
       std::string r = "?";
+      Slot<Fam> &x = *xp;
+      Slot<Fam> &y = *yp;
       with(x, [&](auto &ox) {
         with(y, [&](auto &oy) {
           using PX = typename std::decay<decltype(*ox)>::type;
@@ -560,6 +606,10 @@ void run_world(const Case &c)
   w->heap.world = Fam::world;
   w->nvar       = cfg["nvar"];
   w->nobj       = cfg["nobj"];
+  {
+    std::string mk = cfg.value("mk", "none");
+    w->mkind       = mk == "unique" ? 1 : (mk == "shared" ? 2 : 0);
+  }
   w->rng        = Rng(c.seed);
   for (int i = 0; i < w->nvar; ++i)
   {
@@ -581,7 +631,7 @@ void run_world(const Case &c)
     w->heap.died.clear();
     w->last_ret = 9;
     if (Fam::world == 0 && !sts[k].value("dev", "").empty() && g_shm->dev_crashes >= 2 &&
-        sts[k]["expDev"].size() == 1 && sts[k]["expDev"][0]["died"].empty())
+        sts[k]["expDev"].size() == 1 && sts[k]["expDev"][0]["died"] == sts[k]["exp"]["died"])
     {
       // a step whose deviation is "the process may die, nothing else changes" and that did kill the
       // process twice already: truncate here, exactly as after an observed deviating step
